@@ -21,7 +21,7 @@ PROP = dict(
           "100 evenly spaced). deep = 1..512 nested arrays/objects/alternating: (a) and (c). xdl = XDL-flavoured texts (unquoted names, "
           "= or :, Y/N, newline separators, // and /* */ comments, class prefixes), mut = documents mutated by truncation, deletion, "
           "duplication, splicing of two documents, byte flips and structural-character insertion, raw = random strings over a structural "
-          "alphabet: totality and (c) only. reuse = 2..6 generated documents (valid JSON, XDL-flavoured, 1/10 mutated; whole or in a random k-chunk partition) decoded in turn by ONE XdlParser object with reset() between them: every document a fresh parser accepts must give the identical value on the reused parser (reset() is relied upon only after a complete document - after a rejected one the session continues on a new object; a document a fresh parser rejects is not compared, because the unchanged reset() keeps the root list and value() then reports the previous document again); every accepted document of the other parts also gets a short reuse round (decode, reset(), 3 chunks, reset(), decode). \\u0000 and lone surrogates are never generated (excluded by the property). "
+          "alphabet: totality and (c) only. paths = the file readers Json::read / Xdl::read (the chunked decoder behind a path) on a directory, a directory with a trailing slash, a symbolic link to a directory, a missing file, an empty file, /dev/null, a FIFO whose writer closes without writing (and a file without read permission when not running as root): the call returns (watchdog 20 s, HANG-DIAG line), no memory error, and a following read of a regular file gives its document (all kinds x both readers, enumerated). reuse = 2..6 generated documents (valid JSON, XDL-flavoured, 1/10 mutated; whole or in a random k-chunk partition) decoded in turn by ONE XdlParser object with reset() between them: every document a fresh parser accepts must give the identical value on the reused parser (reset() is relied upon only after a complete document - after a rejected one the session continues on a new object; a document a fresh parser rejects is not compared, because the unchanged reset() keeps the root list and value() then reports the previous document again); every accepted document of the other parts also gets a short reuse round (decode, reset(), 3 chunks, reset(), decode). \\u0000 and lone surrogates are never generated (excluded by the property). "
           "Non-trivial: Part A an input with a cut strictly inside a text containing one of [ { \" \\ /; json documents with >= 2 tokens; "
           "deep cases; xdl texts asl accepts; mut/raw texts of >= 4 bytes; reuse sessions with >= 2 consecutive accepted documents. Distinct = distinct FNV-1a hash of the text."),
     assumptions=["XdlParser::reset() is the interface for decoding another document with the same parser object (undocumented class; "
